@@ -7,9 +7,17 @@ CHECKS = {
    text="Theorems in coq/props/C18.v (closed under the global context): the two dictionaries stay exact inverses after every history from every accepted constructor argument; every mutator step refines the plain list-of-live-pairs specification with the same outcome (KeyError iff absent); insert displaces exactly the pairs sharing key or value; len/iter/items reflect the live pairs; the constructor rejects iff the mapping is not injective. The model is hand-written Gallina mirroring utils.py statement by statement; each run re-ties it to /repo by running the real BiMap and the model on the same histories and by evaluating the specification on the implementation's own observations.",
    note="Trusted: Coq kernel/vm_compute; the correspondence samples (exhaustive over small universes, random beyond); Python ==/hash of the sampled keys behaves as equality. None keys are excluded by the property.",
    ref="4/C18"),
+ "C16": dict(
+   technique="Coq proof over unbounded Z (Node indexing = Python sequence semantics, by lia/case analysis) tied by behavioural correspondence (exhaustive small n and bounds, random large values, handles from add/delete histories and builder calls)",
+   text="Theorems in coq/props/C16.v (closed under the global context), for every n >= 0 and all integers: iteration yields offsets 0..n-1 in order; integer indexing equals range(n)[i] (IndexError outside -n..n-1); slicing with any positive step equals range(n)[start:stop:step] with positive overflow clamped and IndexError for a bound below -n (also stated pointwise as membership); tuple indexing; unknown count: non-negative ints work, iteration raises ValueError; ports compare by (node index, offset, direction). The model mirrors node_port.py; each run re-ties it to /repo by evaluating the same queries on real handles, including handles returned by add_node inside add/delete histories (index reuse) and by every builder call the property lists, whose expected count is the operation's num_out.",
+   note="Trusted: Coq kernel/vm_compute; the correspondence samples; 'handles returned by builders know their count' is monitored on builder scenarios (not a theorem) with the count read from op.num_out; hash equality is only observed (equal ports hash equal).",
+   ref="4/C16"),
 }
 NA = []
 def main():
+    import json as _j
+    allp = [_j.loads(l)["id"] for l in open(os.path.join(V, "properties.jsonl"))]
+    NA[:] = [{"property_id": p, "reason": "check not built yet (work in progress; see DESIGN.md section 4 for the plan)"} for p in allp if p not in CHECKS]
     checks = []
     for pid, c in sorted(CHECKS.items()):
         checks.append({
